@@ -30,7 +30,7 @@ class World:
         self.model = model
         self.clock = Clock()
         self.base = scratch_dir()
-        self.proj = os.path.join(self.base, "p")
+        self.proj = os.path.join(self.base, knobs.get("proj_name") or "p")
         self.backend = knobs["backend"]
         self.pending_violation = None
         self.probes = {}
@@ -281,7 +281,8 @@ class World:
                 pj = self.jref(d)
                 if pj is not None and self.job_phase(pj) in ("pending", "running"):
                     producers.append(pj)
-        self.job_model[j.id] = dict(outputs=outs, name=j.name, producers=producers)
+        self.job_model[j.id] = dict(outputs=outs, name=j.name, producers=producers,
+                                    spec=t.spec() if t is not None else "", wd=t.wd if t is not None else "")
         self.latest[j.name] = j.id
         if self.local is not None:
             self.latest_gen[j.name] = self.local.generation
